@@ -163,7 +163,7 @@ func (nd *ndArrayType) MustReshape(newShape []int) NDArrayType {
 	return result
 }
 
-func (nd *ndArrayType) Get1(loc int) ArrayType {
+func (nd *ndArrayType) index1(loc int) []int {
 	var idx []int
 
 	if len(nd.Dims) == 1 {
@@ -178,11 +178,15 @@ func (nd *ndArrayType) Get1(loc int) ArrayType {
 		}
 		//		fmt.Println("nDims>1",idx,nd.Dims,loc)
 	}
-	return nd.Get(idx)
+	return idx
+}
+
+func (nd *ndArrayType) Get1(loc int) ArrayType {
+	return nd.Get(nd.index1(loc))
 }
 
 func (nd *ndArrayType) Set1(loc int, val ArrayType) {
-	nd.Set([]int{loc}, val)
+	nd.Set(nd.index1(loc), val)
 }
 
 func (nd *ndArrayType) Apply1(loc int, step int, vals []ArrayType) {
